@@ -1,6 +1,7 @@
 """icontract/_decorators.py and the definition-time helpers of _checkers.py (C08 C09 C14 C15 C17 C19)."""
 import ast
 import z3
+from pyvc.base import qforall
 
 from pyvc.base import V, NONE, TRUE, FALSE, I, B, SeqI, T_OBJ, T_LIST, T_FUNC, ISINST, clsref, fresh, vbool, TY
 from pyvc.engine import FnSpec
@@ -26,7 +27,7 @@ REG.calls["traceback.extract_stack"] = _extract_stack
 # the decorator stack below a callable: f, f.__wrapped__, ... (functools.update_wrapper convention; acyclic)
 CHAIN = z3.Function("wrapped_chain", I, SeqI)
 REG.external("_checkers._walk_decorator_stack", "assumed contract: yields func, func.__wrapped__, ... until an object without __wrapped__ "
-             "(6-line generator with a while loop; acyclic chains assumed)")
+             "(6-line generator with a while loop; acyclic chains assumed; a wrapped object is older than its wrapper)")
 
 
 def chain_facts(st, f):
@@ -34,9 +35,9 @@ def chain_facts(st, f):
     j = z3.Int("j!ch")
     n = z3.Length(ch)
     return [n >= 1, ch[0] == f,
-            z3.ForAll([j], z3.Implies(z3.And(j >= 0, j < n - 1), z3.And(st.get("has:__wrapped__", ch[j]), attr(st, ch[j], "__wrapped__") == ch[j + 1])), patterns=[ch[j]]),
+            qforall([j], z3.Implies(z3.And(j >= 0, j < n - 1), z3.And(st.get("has:__wrapped__", ch[j]), attr(st, ch[j], "__wrapped__") == ch[j + 1])), patterns=[ch[j]]),
             z3.Not(st.get("has:__wrapped__", ch[n - 1])),
-            z3.ForAll([j], z3.Implies(z3.And(j >= 0, j < n), z3.And(ch[j] != NONE, ch[j] < st.ctr)), patterns=[ch[j]])]
+            qforall([j], z3.Implies(z3.And(j >= 0, j < n), z3.And(ch[j] != NONE, ch[j] < st.ctr, ch[j] <= f)), patterns=[ch[j]])]
 
 
 def _walk(ex, st, node, args, kwargs):
@@ -74,11 +75,13 @@ class FindChecker(FnSpec):
             self.spec = spec
 
         def inv(self, c):
+            if "contract_checker" not in c.st.vars:
+                return []  # the source no longer keeps the candidate in this variable: no invariant to offer
             cc = c.st.vars["contract_checker"].t
             ch = CHAIN(self.spec.f)
             return [cc == FC(self.spec.f, c.i),
                     z3.Implies(z3.And(c.i >= 1, cc == NONE), z3.Not(has_lists(c.entry, ch[0]))),
-                    z3.Implies(cc != NONE, z3.And(has_lists(c.entry, cc), cc < self.spec.ctr0))]
+                    z3.Implies(cc != NONE, z3.And(has_lists(c.entry, cc), cc < self.spec.ctr0, cc <= self.spec.f))]
 
     def __init__(self):
         self.loops = {"_walk_decorator_stack(func)": self.Loop(self)}
@@ -92,7 +95,7 @@ class FindChecker(FnSpec):
         f = c.ref("func")
         return [("innermost_object_with_contract_lists", v.t == FC(f, z3.Length(CHAIN(f)))),
                 ("none_only_if_func_itself_has_no_lists", z3.Implies(v.t == NONE, z3.Not(has_lists(c.pre, f)))),
-                ("a_found_checker_has_the_lists", z3.Implies(v.t != NONE, z3.And(has_lists(c.pre, v.t), v.t < c.pre.ctr)))]
+                ("a_found_checker_has_the_lists", z3.Implies(v.t != NONE, z3.And(has_lists(c.pre, v.t), v.t < c.pre.ctr, v.t <= f)))]
 
     def call_events(self, ex, st, c):
         st.assume(*chain_facts(st, c.ref("func")))
